@@ -83,7 +83,7 @@ def run(ctx):
                 continue
             ctx.count("impl-encrypts-ref-decrypts", (alg, enc, ser, repr(v)[:120]), True, f"{alg}")
             try:
-                got = R.decrypt(v, native, sender.raw_value.public_key() if sender else None)
+                got = R.decrypt(v, native, sender.raw_value.public_key() if sender else None, strict_zip=True)
                 ok, why = got == pt, "plaintext differs"
             except R.RefReject as e:
                 ok, why = False, str(e)
@@ -91,6 +91,28 @@ def run(ctx):
                 ctx.report(f"a JWE produced by joserfc ({alg}/{enc}, {ser}) is rejected by the independent implementation: {why}",
                            {"alg": alg, "enc": enc, "ser": ser, "value": v.decode() if isinstance(v, bytes) else v}, f"interop:impl->ref:{alg.split('+')[0]}")
             facts(ctx, alg, enc, ser, v)
+    # zip=DEF for plaintexts of every small length incl. 0, joserfc -> strict reference inflater
+    for pt in [b"", b"a", b"ab", b"hello", b"\x00" * 40, bytes(range(256)) * 3, E.DEFLATE_LOOKING]:
+        for ser in ("compact", "flat"):
+            k16 = K.key("oct16")
+            hdr = {"alg": "dir", "enc": "A128GCM", "zip": "DEF"}
+            try:
+                if ser == "compact":
+                    v = jwe.encrypt_compact(dict(hdr), pt, k16, algorithms=E.ALL_NAMES).encode()
+                else:
+                    obj = jwe.FlattenedJSONEncryption(dict(hdr), pt)
+                    obj.add_recipient(None, k16)
+                    v = jwe.encrypt_json(obj, None, algorithms=E.ALL_NAMES)
+                got = R.decrypt(v, k16.raw_value, None, strict_zip=True)
+                ok, why = got == pt, "plaintext differs"
+            except R.RefReject as e:
+                ok, why = False, str(e)
+            except Exception as e:  # noqa: BLE001
+                ok, why = False, "encrypt: " + err_name(e)
+            ctx.count("impl-encrypts-ref-decrypts", ("zip-lengths", len(pt), ser), True, "zip-lengths")
+            if not ok:
+                ctx.report(f"a zip=DEF JWE produced by joserfc for a {len(pt)}-octet plaintext ({ser}) is rejected by the independent implementation: {why}",
+                           {"plaintext": pt.hex()[:80], "ser": ser, "value": v.decode() if isinstance(v, bytes) else v}, "interop:impl->ref:zip")
     # PBES2 with caller-chosen iteration counts, joserfc -> reference
     for alg in ("PBES2-HS256+A128KW", "PBES2-HS512+A256KW"):
         for p2c in p2cs:
